@@ -212,6 +212,7 @@ pub fn check(prop: &'static dyn Property, o: &CheckOpts) -> CheckResult {
     let found: Mutex<Vec<Found>> = Mutex::new(Vec::new());
     let known_hits: Mutex<Vec<(String, u64, Violation)>> = Mutex::new(Vec::new());
     let merged: Mutex<Stats> = Mutex::new(Stats::new());
+    let harness_err: Mutex<Option<String>> = Mutex::new(None);
     let deadline = t0 + Duration::from_secs_f64(o.budget_s);
 
     // heartbeat table for the hang supervisor
@@ -230,6 +231,7 @@ pub fn check(prop: &'static dyn Property, o: &CheckOpts) -> CheckResult {
             let merged = &merged;
             let known = &known;
             let timed_out = &timed_out;
+            let harness_err = &harness_err;
             let beat = beats[w].clone();
             let tier = o.tier;
             let seed = o.seed;
@@ -271,7 +273,19 @@ pub fn check(prop: &'static dyn Property, o: &CheckOpts) -> CheckResult {
                             beat.0.store(i + 1, Ordering::Relaxed);
                             ctx.run_index = i;
                             let mut tape = Tape::random(run_seed(seed, id, i));
-                            let vs = prop.run(&mut tape, &mut ctx);
+                            let vs = match crate::env::guarded(|| prop.run(&mut tape, &mut ctx)) {
+                                Ok(vs) => vs,
+                                Err(p) => {
+                                    // a panic outside the guarded calls into lzma-rs is a
+                                    // bug of the harness itself
+                                    let mut h = harness_err.lock().unwrap();
+                                    if h.is_none() {
+                                        *h = Some(format!("run {} (seed {}): {}", i, seed, p));
+                                    }
+                                    stop_at.fetch_min(0, Ordering::SeqCst);
+                                    break;
+                                }
+                            };
                             if !vs.is_empty() {
                                 for v in vs {
                                     if let Some(k) = known_match(known, id, &v) {
@@ -347,6 +361,13 @@ pub fn check(prop: &'static dyn Property, o: &CheckOpts) -> CheckResult {
         done.store(true, Ordering::SeqCst);
     });
 
+    if let Some(e) = harness_err.into_inner().unwrap() {
+        eprintln!("HARNESS-ERROR: panic inside the harness: {}", e);
+        return CheckResult {
+            exit: 2,
+            summary: Json::Null,
+        };
+    }
     let mut stats = merged.into_inner().unwrap();
     let mut found = found.into_inner().unwrap();
     found.sort_by_key(|f| f.index);
@@ -699,4 +720,60 @@ pub fn replay_file(props: &[&'static dyn Property], path: &str, quiet: bool) -> 
         println!("VIOLATION property={} replay={}", pid, path);
     }
     code
+}
+
+// ---------------------------------------------------------------- simple properties
+
+/// A property whose every seeded run is "generate one scenario, execute it,
+/// judge it". Most properties have this shape.
+pub struct SimpleProp {
+    pub id: &'static str,
+    pub level: &'static str,
+    pub rule: &'static str,
+    pub runs_quick: u64,
+    pub runs_thorough: u64,
+    pub both_profiles: bool,
+    pub assumptions: &'static [&'static str],
+    pub gen: fn(&mut Tape, Tier) -> Scenario,
+    pub exec: fn(&Scenario, &mut Ctx) -> Vec<Violation>,
+    pub enumerate: Option<fn(&mut Ctx) -> Vec<Violation>>,
+}
+
+impl Property for SimpleProp {
+    fn id(&self) -> &'static str {
+        self.id
+    }
+    fn level(&self) -> &'static str {
+        self.level
+    }
+    fn rule(&self) -> &'static str {
+        self.rule
+    }
+    fn runs(&self, tier: Tier) -> u64 {
+        match tier {
+            Tier::Quick => self.runs_quick,
+            Tier::Thorough => self.runs_thorough,
+        }
+    }
+    fn both_profiles(&self) -> bool {
+        self.both_profiles
+    }
+    fn assumptions(&self) -> Vec<&'static str> {
+        self.assumptions.to_vec()
+    }
+    fn run(&self, tape: &mut Tape, ctx: &mut Ctx) -> Vec<Violation> {
+        let sc = (self.gen)(tape, ctx.tier);
+        ctx.begin(&sc);
+        (self.exec)(&sc, ctx)
+    }
+    fn replay(&self, sc: &Scenario, ctx: &mut Ctx) -> Vec<Violation> {
+        ctx.begin(sc);
+        (self.exec)(sc, ctx)
+    }
+    fn enumerate(&self, ctx: &mut Ctx) -> Vec<Violation> {
+        match self.enumerate {
+            Some(f) => f(ctx),
+            None => Vec::new(),
+        }
+    }
 }
